@@ -109,11 +109,11 @@ def run(ck: Check) -> None:
 
     rng = ck.rng
     ck.correspondences.add("corr:api-histories/verdict-per-call")
-    nh = 12 if ck.thorough else 4
+    nh = ck.n(12, 4)
     all_lines, all_impl, all_calls, all_call_args = [], [], [], []
     for h in range(nh):
         pool = build_pool(rng)
-        calls = [rand_call(rng, pool) for _ in range(200 if ck.thorough else 60)]
+        calls = [rand_call(rng, pool) for _ in range(ck.n(200, 60))]
         calls += [calls[i] for i in rng.sample(range(len(calls)), 15)]          # repeats
         for op, args in calls:
             before = [snapshot(a) for a in args]
@@ -159,7 +159,7 @@ def run(ck: Check) -> None:
         seen.setdefault(line, i)
 
     # wrap-then-mutate, both directions
-    for _ in range(80 if ck.thorough else 25):
+    for _ in range(ck.n(80, 25)):
         obj = gen.rand_json(rng, 4, [25])
         if not isinstance(obj, (dict, list)) or not obj:
             obj = {"a": [1, {"b": obj}], "c": {"d": [2, 3]}}
